@@ -24,6 +24,14 @@ P = {
          "Undecided in this tree: the remaining argument checks of scan(), the descent-key obligation (INF ignores the key), the per-entry endpoint tests of scan_border and the exactness of the multi-node result.", '5 (C03)'),
  'C01': (True, "ONE clause of C01 only - 'an OK get never yields a null or torn value': get<char>(tree_instance*, ...) as a reader skeleton under arbitrary interference on every slot-word, version and root-pointer load (loop contract over the goto-retry dispatcher, descent and leaf lookup by assumed skeleton contracts): whenever it returns OK, out.first/out.second are body/length of one loaded slot word that is a non-empty out-of-line value word. The obligation failed on the pinned tree (get racing remove returned OK with nullptr; repaired by fix commit 8da532e, native stress witness attached as replay).",
          "NOT decided (no contract can express it): linearizability of put/get/remove over concurrent histories. Assumed: skeleton contracts of find_border and get_lv_of; rely on slot-word shapes (writer-side obligations proved under C15).", '5 (C01/C04)'),
+ 'C07': (True, "Reclamation GUARDS (per function, every queue content and length - unbounded queue model): gc_value / gc_node release only the element just popped or the parked one, with its recorded (ptr,size,align), and only if its tag < the gc epoch loaded at entry; nothing is dropped or released twice; the cache is overwritten only when empty; the first ineligible element is parked and stops the pass. Retire side: border_node::delete_at pushes the block ONCE with the retiring session's begin epoch and the allocation triple, clears the delete flag and resets the slot BEFORE the permutation shrinks (call-site precondition of delete_rank), never frees. gc_thread runs a pass per period until it observes its stop flag; get/set_gc_epoch, get_begin_epoch, get_epoch.",
+         "NOT decided: the schedule-quantified theorem itself (that these guards imply 'never released while a session active at unlink time is active'), epoch_thread's advance condition and gc_epoch computation (not yet under contract), the stale-begin-epoch window in enter, node retire sites in delete_of / interior delete_of.", '5 (C07/C11)'),
+ 'C11': (True, "Release ledger per function: value::create_value / delete_value size+align match (all lengths, alignments), set_value frees the previous out-of-line value exactly once or hands it to the caller un-freed, delete_at retires (never frees), gc_value / gc_node free-or-park each popped element exactly once, garbage_collection::fin leaves both caches and both queues empty releasing every element once with its recorded size/alignment (unbounded queue model), create_storage releases its speculative root iff put failed, delete_storage destroys and releases the dropped tree exactly once iff the removal succeeded.",
+         "NOT decided: whole-history balance (composition over operations and init/fin cycles), put's speculative allocations, destroy()'s recursion, thread_info_table::fin/gc loops.", '5 (C07/C11)'),
+ 'C13': (True, "Status mapping and ownership of the storage layer with the map-level operations on the storages tree as recorder stubs: find_storage (OK/WARN_NOT_EXIST, out-parameter only on success), every by-name wrapper (get / put / legacy put / remove / scan) returns WARN_STORAGE_NOT_EXIST iff the name is unknown - without calling the data operation - and otherwise forwards to the found tree with unchanged arguments and returns its status unchanged (legacy put reports put's modified node), create_storage (fresh empty root border, put<tree_instance> unique by value with sizeof/alignof(tree_instance), returns put's status, frees the root iff put failed, always leaves its session), delete_storage (WARN_NOT_EXIST / OK with the tree destroyed and released once and its root nulled / WARN_CONCURRENT_OPERATIONS with the tree untouched).",
+         "Assumed: recorder contracts/stubs of put/get/remove/scan/enter/leave/destroy (their behaviour is C01-C03, C11, C14). NOT decided: isolation as a reachability frame, list_storages, concurrent create/create and delete/delete.", '5 (C13)'),
+ 'C20': (True, "Per-node accounting of border_node::mem_usage, interior_node::mem_usage and link_or_value::mem_usage (recursion through the virtual call closed by its own contract): the entry of the node's level exists afterwards, node count + 1, (reserved - used) grows by exactly the bytes of the unused slots ((15 - cnk) * sizeof(link_or_value), (16 - children) * sizeof(pointer)) - hence used <= reserved and used grows with occupancy -, interior nodes add exactly sizeof(interior_node) (from clang's layout) to reserved, an out-of-line value adds its allocated size to both sides, inline and empty slots add nothing, children and next-layer roots are accounted one level below, shallower levels are never touched.",
+         "Model bound: the level stack is instantiated with 16 entries (tree depth <= 15 in these jobs; the argument is per node and independent of depth). NOT decided: totals per depth for a whole tree (needs the structural induction), mem_usage(storage_name).", '5 (C20)'),
 }
 NA = {
  'C06': "schedule-quantified: the order of four loads at each node boundary against concurrent inserts is not expressible as a pre/postcondition of one call; bounded thread exploration would be a different technique family (DESIGN 6)",
